@@ -14,6 +14,7 @@
 package storage
 
 import (
+	"bytes"
 	"context"
 	"encoding/hex"
 	"encoding/json"
@@ -53,6 +54,9 @@ func verifPoint(name string) {
 // verifChunkedWrite replaces tmpFile.Write(data) in Write: the same bytes, written in the
 // chunking chosen by the case, with a crash point after every chunk.
 func verifChunkedWrite(f *os.File, data []byte) (int, error) {
+	if verifChunks == nil { // not a crash case: plain write
+		return f.Write(data)
+	}
 	total := 0
 	for _, c := range verifChunks {
 		n, err := f.Write(c)
@@ -135,7 +139,202 @@ type verifCrashCase struct {
 	Other      []string `json:"other"`
 }
 
+// verifMethodCase: which file does every key-taking method of LocalBackend actually touch?
+// A fresh "world" directory holds the storage root, an "outside" directory and the process
+// working directory; canary files are planted OUTSIDE the root wherever the raw or the sanitised
+// key would land if it were used unvalidated (absolute, cwd-relative, ".."), plus "<that>.part".
+// Inside the root, at the path validatePath resolves the key to, the requested final / .part
+// contents are planted.  Then every method is called with the key.
+type verifMethodCase struct {
+	Key     string  `json:"key"` // hex; 0x01 'O' 0x01 = absolute path of the outside directory
+	InFinal *string `json:"in_final"`
+	InPart  *string `json:"in_part"`
+
+	Root      string  `json:"root"`
+	Resolved  *string `json:"resolved"`
+	Plantable bool    `json:"plantable"`
+	Read      *string `json:"read"`
+	ReadTo    *string `json:"read_to"`
+	ReadAt    *string `json:"read_at"`
+	Stat      *int64  `json:"stat"`
+	Exists    *bool   `json:"exists"`
+	DelOK     bool    `json:"del_ok"`
+	DelFinal  *string `json:"del_final"`
+	DelPart   *string `json:"del_part"`
+	WriteOK   bool    `json:"write_ok"`
+	AfterW    *string `json:"after_write"`
+	WROK      bool    `json:"wr_ok"`
+	AfterWR   *string `json:"after_wr"`
+	AppOK     bool    `json:"app_ok"`
+	AfterApp  *string `json:"after_app"`
+	AppPart   *string `json:"after_app_part"`
+	ListOK    bool    `json:"list_ok"`
+	Leaked    []string `json:"leaked"`          // methods that returned canary bytes / the canary size
+	Outside   []string `json:"outside_changed"` // files outside the root created, changed or removed
+	Canaries  int      `json:"canaries"`
+}
+
+var verifCanary = []byte("CANARY-outside-the-storage-root-0123456789") // 42 bytes
+
+func verifSnapshot(world, root string) map[string]string {
+	m := map[string]string{}
+	_ = filepath.WalkDir(world, func(p string, d os.DirEntry, err error) error {
+		if err != nil {
+			return nil
+		}
+		if p == root {
+			return filepath.SkipDir
+		}
+		if d.IsDir() {
+			m[p+"/"] = ""
+		} else if b, err := os.ReadFile(p); err == nil {
+			m[p] = string(b)
+		}
+		return nil
+	})
+	return m
+}
+
+func runMethodCase(t *testing.T, c *verifMethodCase) {
+	verifTarget, verifChunks = 0, nil
+	world := t.TempDir()
+	root, out, cwd := filepath.Join(world, "root"), filepath.Join(world, "out"), filepath.Join(world, "cwd", "sub")
+	for _, d := range []string{out, cwd} {
+		if err := os.MkdirAll(d, 0o700); err != nil {
+			t.Fatal(err)
+		}
+	}
+	if err := os.Chdir(cwd); err != nil {
+		t.Fatal(err)
+	}
+	b, err := NewLocalBackend(root, zerolog.Nop())
+	if err != nil {
+		t.Fatal(err)
+	}
+	root = b.basePath
+	c.Root = hex.EncodeToString([]byte(root))
+	key := strings.ReplaceAll(string(unhex(t, c.Key)), "\x01O\x01", out)
+	c.Key = hex.EncodeToString([]byte(key))
+	plant := func(target string) {
+		cl := filepath.Clean(target)
+		if !strings.HasPrefix(cl, world+"/") || cl == root || strings.HasPrefix(cl, root+"/") || strings.ContainsRune(cl, 0) {
+			return
+		}
+		for _, p := range []string{cl, cl + ".part"} {
+			if os.MkdirAll(filepath.Dir(p), 0o700) == nil {
+				if st, err := os.Stat(p); err == nil && st.IsDir() {
+					continue
+				}
+				if os.WriteFile(p, verifCanary, 0o600) == nil {
+					c.Canaries++
+				}
+			}
+		}
+	}
+	for _, base := range []string{key, sanitizePath(key), strings.TrimSuffix(key, "/")} {
+		if base == "" {
+			continue
+		}
+		if filepath.IsAbs(base) {
+			plant(base)
+		} else {
+			plant(filepath.Join(cwd, base))
+		}
+	}
+	for _, d := range []string{out, cwd, filepath.Dir(cwd)} {
+		plant(filepath.Join(d, "victim"))
+	}
+	before := verifSnapshot(world, root)
+
+	ctx := context.Background()
+	p, verr := b.validatePath(key)
+	if verr == nil {
+		c.Resolved = hexp([]byte(p))
+		if p != root && os.MkdirAll(filepath.Dir(p), 0o700) == nil {
+			if st, err := os.Stat(p); err != nil || !st.IsDir() {
+				c.Plantable = true
+			}
+		}
+	}
+	if c.Plantable {
+		if c.InFinal != nil {
+			_ = os.WriteFile(p, unhex(t, *c.InFinal), 0o600)
+		}
+		if c.InPart != nil {
+			_ = os.WriteFile(p+".part", unhex(t, *c.InPart), 0o600)
+		}
+	}
+	leak := func(method string, data []byte) {
+		if bytes.Contains(data, []byte("CANARY")) {
+			c.Leaked = append(c.Leaked, method)
+		}
+	}
+	if data, err := b.Read(ctx, key); err == nil {
+		c.Read = hexp(data)
+		leak("Read", data)
+	}
+	var w1 bytes.Buffer
+	if err := b.ReadTo(ctx, key, &w1); err == nil {
+		c.ReadTo = hexp(w1.Bytes())
+	}
+	leak("ReadTo", w1.Bytes())
+	var w2 bytes.Buffer
+	if err := b.ReadToAt(ctx, key, &w2, 0); err == nil {
+		c.ReadAt = hexp(w2.Bytes())
+	}
+	leak("ReadToAt", w2.Bytes())
+	if n, err := b.StatFile(ctx, key); err == nil {
+		c.Stat = &n
+		if n == int64(len(verifCanary)) {
+			c.Leaked = append(c.Leaked, "StatFile")
+		}
+	}
+	if ok, err := b.Exists(ctx, key); err == nil {
+		c.Exists = &ok
+	}
+	c.ListOK = true
+	if ents, err := b.List(ctx, key); err == nil {
+		for _, e := range ents {
+			full := filepath.Join(root, e)
+			if strings.HasPrefix(e, "..") || !(full == root || strings.HasPrefix(full, root+"/")) {
+				c.ListOK = false
+			}
+		}
+	}
+	c.DelOK = b.Delete(ctx, key) == nil
+	if verr == nil {
+		c.DelFinal, c.DelPart = readOpt(p), readOpt(p+".part")
+	}
+	c.WriteOK = b.Write(ctx, key, []byte("W")) == nil
+	if verr == nil {
+		c.AfterW = readOpt(p)
+	}
+	c.WROK = b.WriteReader(ctx, key, bytes.NewReader([]byte("RR")), 2) == nil
+	if verr == nil {
+		c.AfterWR = readOpt(p)
+	}
+	if c.Plantable {
+		_ = os.WriteFile(p+".part", []byte("P"), 0o600)
+	}
+	c.AppOK = b.AppendReader(ctx, key, bytes.NewReader([]byte("A")), 1) == nil
+	if verr == nil {
+		c.AfterApp, c.AppPart = readOpt(p), readOpt(p+".part")
+	}
+	after := verifSnapshot(world, root)
+	for k, v := range before {
+		if v2, ok := after[k]; !ok || v2 != v {
+			c.Outside = append(c.Outside, k)
+		}
+	}
+	for k := range after {
+		if _, ok := before[k]; !ok {
+			c.Outside = append(c.Outside, k)
+		}
+	}
+}
+
 type verifStorageIO struct {
+	Methods []verifMethodCase `json:"methods"`
 	Roots []string         `json:"roots"` // out: the absolute roots (hex)
 	Keys  []verifKeyCase   `json:"keys"`
 	Lib   []verifLibCase   `json:"lib"`
@@ -283,6 +482,18 @@ func TestVerifStorage(t *testing.T) {
 	}
 	for i := range in.Crash {
 		runCrashCase(t, &in.Crash[i])
+	}
+	if len(in.Methods) > 0 {
+		wd, err := os.Getwd()
+		if err != nil {
+			t.Fatal(err)
+		}
+		for i := range in.Methods {
+			runMethodCase(t, &in.Methods[i])
+		}
+		if err := os.Chdir(wd); err != nil {
+			t.Fatal(err)
+		}
 	}
 	out, _ := json.Marshal(in)
 	if err := os.WriteFile(os.Getenv("VERIF_OUT"), out, 0o644); err != nil {
